@@ -251,9 +251,14 @@ class Ctx:
                 out['vars'][name] = z3.is_true(m.eval(e, model_completion=True))
             else:
                 out['vars'][name] = cls(e)
+        def val(e):
+            if z3.is_int(e):
+                return m.eval(e, model_completion=True).as_long()
+            if z3.is_bool(e):
+                return z3.is_true(m.eval(e, model_completion=True))
+            return cls(e)
         for fname, args, res in self.apps:
-            out['apps'].append([fname, [cls(a) if not z3.is_int(a) else m.eval(a, model_completion=True).as_long()
-                                        for a in args], cls(res)])
+            out['apps'].append([fname, [val(a) for a in args], val(res)])
         return out
 
     # ---------------------------------------------------------------- exploration
@@ -371,7 +376,13 @@ class Ctx:
             f = _FUNCS[fk] = z3.Function(fname, *([x.sort() for x in exprs] + [ressort]))
         res = f(*exprs) if exprs else z3.Const(fname + '_const', ressort)
         self.apps.append((fname, exprs, res))
-        r = Sym(res, ressort.name())
+        if ressort == z3.IntSort():
+            r = SymInt(res)
+        elif ressort == z3.BoolSort():
+            from .values import SymBool
+            r = SymBool(res)
+        else:
+            r = Sym(res, ressort.name())
         if key is not None:
             self.appmemo[key] = r
         return r
@@ -380,6 +391,19 @@ class Ctx:
         """equality of two values as something `check`/`assume` accept"""
         r = (a == b)
         return r
+
+    def apply_tag(self, fname, args, n):
+        """uninterpreted function into range(n), returned as a concrete int (forks): a deterministic tag of the arguments"""
+        t = self.apply(fname, args, z3.IntSort())
+        self.solver.add(t.e >= 0, t.e < n)
+        for v in range(n - 1):
+            if self.branch(t.e == v):
+                return v
+        return n - 1
+
+    def apply_pred(self, fname, args):
+        """uninterpreted predicate, decided (forks)"""
+        return self.branch(self.apply(fname, args, z3.BoolSort()).e)
 
     def concrete(self):
         return False
@@ -496,9 +520,23 @@ class ReplayCtx:
         key = (fname, tuple(_cls_of(a) for a in args))
         if key not in self.apptable:
             self.fresh += 1
-            self.apptable[key] = str(ressort)[0] + str(self.fresh)
+            if ressort == z3.IntSort():
+                self.apptable[key] = 0
+            elif ressort == z3.BoolSort():
+                self.apptable[key] = False
+            else:
+                self.apptable[key] = str(ressort)[0] + str(self.fresh)
             self.diverged.append('app %s%r' % key)
-        return CVal(self.apptable[key])
+        v = self.apptable[key]
+        if ressort == z3.IntSort() or ressort == z3.BoolSort():
+            return v
+        return CVal(v)
+
+    def apply_tag(self, fname, args, n):
+        return min(max(int(self.apply(fname, args, z3.IntSort())), 0), n - 1)
+
+    def apply_pred(self, fname, args):
+        return bool(self.apply(fname, args, z3.BoolSort()))
 
     def assume(self, cond):
         if not bool(cond):
